@@ -176,6 +176,7 @@ Definition default_policy (oob : Q -> Z) (rnd : Z -> Z) : policy :=
 
 Inductive bodykind :=
 | KNone                       (* req.Body == nil *)
+| KNoBody                     (* req.Body == http.NoBody, GetBody nil (http.NewRequest(m, u, http.NoBody)) *)
 | KReplay                     (* GetBody set *)
 | KOneShot                    (* Body set, GetBody nil *)
 | KGetBodyErr (ok_calls : nat). (* GetBody succeeds ok_calls times, then fails *)
@@ -189,14 +190,22 @@ Definition init_state (bd : body) : bstate := mkSt (bdata bd) 0.
 
 Inductive rewind_result := RwOk (st : bstate) | RwNoGetBody | RwGetBodyErr.
 
-(* the common part of Transport.RoundTrip's rewind and auth.rewindRequestBody *)
+(* auth.rewindRequestBody (Body nil or http.NoBody: nothing to do) *)
 Definition rewind (bd : body) (st : bstate) : rewind_result :=
   match bk bd with
-  | KNone => RwOk st
+  | KNone | KNoBody => RwOk st
   | KReplay => RwOk (mkSt (bdata bd) (S (s_calls st)))
   | KOneShot => RwNoGetBody
   | KGetBodyErr k => if (s_calls st <? k)%nat then RwOk (mkSt (bdata bd) (S (s_calls st)))
                      else RwGetBodyErr
+  end.
+
+(* the rewind of Transport.RoundTrip: the same, except that it has no special case for
+   http.NoBody -- a non-nil Body without GetBody is never retried *)
+Definition rt_rewind (bd : body) (st : bstate) : rewind_result :=
+  match bk bd with
+  | KNoBody => RwNoGetBody
+  | _ => rewind bd st
   end.
 
 Definition take_body (r : option nat) (s : str) : str * str :=
@@ -250,6 +259,18 @@ Record rt_out := mkOut {
 
 Definition cancelled_before (cn : cancel) (x : Z) : bool :=
   match cn with Some (tc, _) => tc <? x | None => false end.
+(* the context has ended at instant x *)
+Definition ended_at (cn : cancel) (x : Z) : bool :=
+  match cn with Some (tc, _) => tc <=? x | None => false end.
+(* does a pause that would end at instant x end the call with the context's error?
+   The select of RoundTrip returns when the context ends first; when the timer fires at the
+   very instant the context has ended (always for a zero pause) select picks either branch:
+   [checked] = the timer branch re-checks ctx.Err() (then the call ends either way);
+   otherwise the model follows the timer branch (the loop goes on). *)
+Definition pause_cancelled_gen (checked : bool) (cn : cancel) (x : Z) : bool :=
+  if checked then ended_at cn x else cancelled_before cn x.
+(* the source as it is now: Generated.GC17.rt_checks_ctx_after_timer is re-read from client.go *)
+Definition pause_cancelled := pause_cancelled_gen rt_checks_ctx_after_timer.
 Definition cancel_outcome (cn : cancel) : outcome :=
   match cn with Some (_, dl) => ctx_outcome dl | None => OCanceled end.
 Definition cancel_clock (cn : cancel) (t : Z) : Z :=
@@ -257,12 +278,13 @@ Definition cancel_clock (cn : cancel) (t : Z) : Z :=
 
 (* one attempt against the server: what it receives, what comes back and when.
    A context that ends while the server is busy makes the base transport return
-   the context's error at that instant. *)
+   the context's error at that instant; a context that has already ended when the
+   request arrives makes it return that error at once (as net/http's transport does). *)
 Definition serve (cn : cancel) (bd : body) (st : bstate) (bh : beh) (t : Z)
   : str * bstate * outcome * Z :=
   let '(got, rest) := take_body (b_read bh) (s_rest st) in
   let st' := mkSt rest (s_calls st) in
-  if cancelled_before cn (t + b_lat bh) then (got, st', cancel_outcome cn, cancel_clock cn t)
+  if ended_at cn t || cancelled_before cn (t + b_lat bh) then (got, st', cancel_outcome cn, cancel_clock cn t)
   else (got, st', b_out bh, t + b_lat bh).
 
 Inductive step_res :=
@@ -284,11 +306,11 @@ Definition rt_step (p : policy) (cn : cancel) (bd : body)
     if d <? 0 then stop
     else
       (* rewind the body if possible (req.Body == nil: nothing to do) *)
-      match rewind bd st1 with
+      match rt_rewind bd st1 with
       | RwNoGetBody | RwGetBodyErr => stop
       | RwOk st2 =>
         let tr2 := tr1 ++ [EPause t1 d] in
-        if cancelled_before cn (t1 + d) then Done (mkOut RCtx st2 sc' (cancel_clock cn t1) tr2)
+        if pause_cancelled cn (t1 + d) then Done (mkOut RCtx st2 sc' (cancel_clock cn t1) tr2)
         else Next st2 sc' (t1 + d) tr2
       end
   end.
@@ -399,18 +421,30 @@ Definition no_body : body := mkBody KNone [].
 
 Definition accepted (r : result) : bool := match r with RResp c _ => c =? 202 | _ => false end.
 
-Definition blob_push (authc : bool) (p : policy) (cn : cancel) (bd : body) (sc : list beh) : push_out :=
+(* [warm0]: the token cache already holds a token for the push's own scope key, so the POST
+   carries Authorization from its first send (the normal state within a push session) *)
+Definition blob_push_gen (authc warm0 : bool) (p : policy) (cn : cancel) (bd : body) (sc : list beh) : push_out :=
   let post := if authc then auth_do_at false p cn no_body sc 0 else plain_do_at p cn no_body sc 0 in
   if accepted (a_res post) then
     let sc' := skipn (length (auth_attempts post)) sc in
-    let authed := match attempts (a_second post) with [] => false | _ => true end in
+    let authed := warm0 || match attempts (a_second post) with [] => false | _ => true end in
     let put := if authc && negb authed then auth_do_at false p cn bd sc' (a_time post)
                else plain_do_at p cn bd sc' (a_time post) in
     mkPush (a_res put) post (Some put) (a_time put)
   else mkPush (a_res post) post None (a_time post).
 
+Definition blob_push (authc : bool) := blob_push_gen authc false.
+
 (* manifestStore.push: an *auth.Client and a body without GetBody => the content is
    buffered in memory and GetBody installed *)
+(* manifestStore.pushWithIndexing, manifest types that may carry a subject (referrers API not
+   known to be supported): the content is read into memory first, whatever the client *)
+Definition indexed_manifest_push_body (bd : body) : body :=
+  match bk bd with
+  | KOneShot => mkBody KReplay (bdata bd)
+  | _ => bd
+  end.
+
 Definition manifest_push_body (is_auth_client : bool) (bd : body) : body :=
   match bk bd with
   | KOneShot => if is_auth_client then mkBody KReplay (bdata bd) else bd
